@@ -52,6 +52,9 @@ HistCorrect ==
          LET full == O.H[S.lims[k][1]]
              lim == S.lims[k][2]
          IN S.lims[k][3] = SubSeq(full, 1, IF lim < Len(full) THEN lim ELSE Len(full))
+(* header proofs against a checkpoint (the header merkle cache survives reorganisations): computed and folded by the
+   harness from the recorded headers; 1 = every probed (checkpoint, height) pair folds to the root of the current hashes *)
+HeaderProofs == Valid => S.hproof = 1
 TxNumMap ==
   Valid =>
     /\ S.txc = Len(Txs)
